@@ -47,7 +47,8 @@ const (
 )
 
 var kindNames = []string{"genuine", "flip-last", "flip-random", "truncate", "extend", "crlf", "junk-insert",
-	"std-alphabet", "padding", "other-key", "second-seal", "random", "decoded-edit", "length-boundary", "trailing-bits"}
+	"std-alphabet", "padding", "other-key", "second-seal", "random", "decoded-edit", "length-boundary", "trailing-bits",
+	"encoding", "cookie-encoding", "cookie-syntax"}
 
 // ---- values -------------------------------------------------------------------------------------
 
@@ -652,6 +653,12 @@ func main() {
 			w.probes(r, b, k, true, emit)
 		}
 	}
+	// encodings of the genuine value and cookie-syntax variations, exhaustively on the fixed values;
+	// then the long runs (one cipher instance sealing the same value thousands of times)
+	for _, b := range fixed {
+		w.encodingCases(r, b, true, emit)
+	}
+	w.longRuns(r, a.Tier, emit)
 	for _, s := range []string{"", "A", "QQ", "QR", "QUI", "QUJ", "Q\nQ", "QQ\r\n", "QQ==", "QUJD", "QUJDRA", "QUJDRB", "AAAAAAAA\nAAAAAAAAAB",
 		"AAAAAAA\nA", "A\nAAAAAAAAAAAAAAA", "AAAAAAAA=", "AAAA AAAA", "\n", "\r\n\r"} {
 		for _, m := range [][2]bool{{false, false}, {true, false}, {true, true}, {false, true}} {
@@ -671,6 +678,9 @@ func main() {
 			if r.Chance(0.6) {
 				w.probes(r, b, k, false, emit)
 			}
+		}
+		if r.Chance(0.5) {
+			w.encodingCases(r, b, false, emit)
 		}
 	}
 	for i := 0; i < a.N-nSeal; i++ {
